@@ -255,3 +255,23 @@ def representative(iv: IV) -> float:
     if hi == INF:
         return lo + 1.3 if lo != 0 else 1.7
     return lo + (hi - lo) * 0.37
+
+
+def samples_in(iv: IV, k: int = 3) -> list:
+    """k well-conditioned points of the interval (numeric refutation only)."""
+    if iv.is_point():
+        return [iv.lo] * k
+    lo, hi = iv.lo, iv.hi
+    fr = [0.37, 0.61, 0.23, 0.83, 0.47]
+    out = []
+    for i in range(k):
+        f = fr[i % len(fr)]
+        if lo == -INF and hi == INF:
+            out.append([-1.7, 0.6, 2.3, -0.4, 1.1][i % 5])
+        elif lo == -INF:
+            out.append(hi - (0.4 + 2.1 * f) if hi != 0 else -(0.3 + 2.7 * f))
+        elif hi == INF:
+            out.append(lo + (0.4 + 2.1 * f) if lo != 0 else (0.3 + 2.7 * f))
+        else:
+            out.append(lo + (hi - lo) * f)
+    return out
